@@ -229,7 +229,7 @@ func OnActor(it Item, fn WithActorFn) error {
 // It should be used when Item represents an Item collection and it's usually used as a way
 // to wrap functionality for other functions that will be called on each item in the collection.
 func OnItemCollection(it Item, fn WithItemCollectionFn) error {
-	if it == nil {
+	if IsNil(it) {
 		return nil
 	}
 	col, err := ToItemCollection(it)
@@ -243,7 +243,7 @@ func OnItemCollection(it Item, fn WithItemCollectionFn) error {
 //
 // It should be used when Item represents an IRI slice.
 func OnIRIs(it Item, fn WithIRIsFn) error {
-	if it == nil {
+	if IsNil(it) {
 		return nil
 	}
 	col, err := ToIRIs(it)
@@ -260,7 +260,7 @@ func OnIRIs(it Item, fn WithIRIsFn) error {
 // objects. It basically wraps functionality for the different collection types
 // supported by the package.
 func OnCollectionIntf(it Item, fn WithCollectionInterfaceFn) error {
-	if it == nil {
+	if IsNil(it) {
 		return nil
 	}
 	switch it.GetType() {
